@@ -51,9 +51,9 @@ BUFS = [16, 61, 4096]
 def minimums(tier: str) -> Dict[str, int]:
     if tier == "quick":
         return {"evaluations": 3000, "distinct": 1000, "getobj_compared": 50000, "absent_lookups": 5000, "fallback_docs": 150,
-                "form:table": 300, "form:stream": 300, "form:hybrid": 300, "packed_objects_read": 2000}
+                "form:table": 300, "form:stream": 300, "form:hybrid": 300, "packed_objects_read": 2000, "tail_sweep_opens": 3000}
     return {"evaluations": 60000, "distinct": 20000, "getobj_compared": 1000000, "absent_lookups": 100000, "fallback_docs": 3000,
-            "form:table": 6000, "form:stream": 6000, "form:hybrid": 6000, "packed_objects_read": 40000}
+            "form:table": 6000, "form:stream": 6000, "form:hybrid": 6000, "packed_objects_read": 40000, "tail_sweep_opens": 60000}
 
 
 def shards(tier: str, seed: int) -> List[Dict[str, Any]]:
@@ -278,6 +278,27 @@ def check_rendering(rec, hist, R, label: str, cfgs) -> List[Tuple[str, str]]:
     return fails
 
 
+def tail_probe(hist, R, bufsiz: int) -> Optional[Tuple[str, str]]:
+    """Open the rendering with one buffer size and check that the newest revision was found (catalog + one object)."""
+    m = model(hist)
+    root = hist[-1]["root"]
+    newest = sorted(hist[-1]["objs"])[:2] + [root]
+    res = observe(R.data, True, bufsiz, newest, [])
+    if res["open"] is not None:
+        return ("open_failed", res["open"])
+    if res["fallback"]:
+        return ("fallback", "intact file was read through the body-scanning fallback")
+    msg = compare(_names(m[root][1]), res["catalog"])
+    if msg:
+        return ("catalog", "catalog: " + msg)
+    for n in newest:
+        st, v = res["objs"][n]
+        msg = ("raised " + v) if st == "exc" else cmp_value(m[n][1], v)
+        if msg:
+            return ("getobj", "object %d: %s" % (n, msg))
+    return None
+
+
 def run_history(rec, rng: random.Random, tier: str, hseed: str) -> None:
     hrng = random.Random(hseed)
     hist, never = gen_history(hrng, tier)
@@ -298,6 +319,15 @@ def run_history(rec, rng: random.Random, tier: str, hseed: str) -> None:
     cfgs_all = [(c, b) for c in (True, False) for b in BUFS]
     for k, R in enumerate(group):
         cfgs = [cfgs_all[i] for i in sorted(rng.sample(range(len(cfgs_all)), 4))]
+        if rng.random() < 0.12:
+            # tail sweep: with every buffer size 1..48 the backward reader's chunk boundaries fall on every byte of
+            # the startxref / offset / %%EOF tail in turn
+            for bs in range(1, 49):
+                r = tail_probe(hist, R, bs)
+                rec.count("tail_sweep_opens")
+                if r:
+                    rec.fail("tail_bufsize:" + r[0], {"hseed": hseed, "tier": tier, "form": k, "bufsiz": bs}, "form%d BUFSIZ=%d forms=%s: %s" % (k, bs, "+".join(R.forms), r[1]))
+                    break
         fails = check_rendering(rec, hist, R, "form%d" % k, cfgs)
         for f in R.forms:
             rec.count("form:" + f)
@@ -522,5 +552,9 @@ def replay(case: Dict[str, Any]) -> List[Tuple[str, str]]:
                 forms[frng.randrange(nrev)] = "hybrid"
         R = render_history(hist, frng, forms=forms, never_defined=never)
         if k == case.get("form", k):
+            if "bufsiz" in case:
+                r = tail_probe(hist, R, case["bufsiz"])
+                if r:
+                    out.append(("tail_bufsize:" + r[0], r[1]))
             out += check_rendering(rec, hist, R, "form%d" % k, [(c, b) for c in (True, False) for b in BUFS])
     return out
